@@ -285,22 +285,28 @@ def landlord_index(fnorm, n, recv):
     return None
 
 
-def landlord_calls(m):
+def landlord_calls(m, dyn=None):
     """[(call, cfg node, normal form of i)] for the calls of method m on self.landlords[i] that go to the server
-    (everything except the local accessors and abort)."""
+    (everything except the local accessors and abort).  With `dyn` (DynWriters) also the calls through
+    getattr(self.landlords[i], <name>)."""
     out = []
-    cands = [c for c in calls_in_func(m) if isinstance(c.func, ast.Attribute)
+    cands = [(c, c.func.value) for c in calls_in_func(m) if isinstance(c.func, ast.Attribute)
              and c.func.attr not in LOCAL_LANDLORD_CALLS and c.func.attr not in REGS
              and isinstance(c.func.value, (ast.Name, ast.Subscript))]
+    if dyn is not None:
+        for c in calls_in_func(m):
+            g = dyn.shape(m, c)
+            if g and isinstance(g[0], (ast.Name, ast.Subscript)):
+                cands.append((c, g[0]))
     if not cands:
         return out
     cfg = m.cfg()
     fnorm = FlowNorm(m)
-    for c in cands:
+    for (c, recv) in cands:
         node = [n for n in cfg.nodes if any(x is c for x in node_calls(n))]
         if not node:
             continue
-        ix = landlord_index(fnorm, node[0], c.func.value)
+        ix = landlord_index(fnorm, node[0], recv)
         if ix is not None:
             out.append((c, node[0], ix))
     return out
@@ -932,10 +938,150 @@ class ParamSources:
                 self.visit(ch, cx)
 
 
+# ------------------------------------- bucket-writer method chosen by name: getattr(self.landlords[i], <name>)(..)
+class DynWriters:
+    """A call <getattr(R, name)>(..) (also `(name if callable(name) else getattr(R, name))(..)`) is a call of the
+    method(s) R.<name> when `name` folds to strings: constants, `a + b`, a single local definition, or a parameter
+    of the enclosing Encoder method bound at EVERY call site self.<method>(..) (followed upwards through the
+    callers, defaults included).  Anything else - a caller outside the class, a bare reference to the method, an
+    override, */** binding - is an AnalysisError."""
+
+    def __init__(self, idx, cg, enc):
+        self.idx, self.cg, self.enc = idx, cg, enc
+
+    @staticmethod
+    def _getattr(m, f):
+        if isinstance(f, ast.Call) and isinstance(f.func, ast.Name) and f.func.id == "getattr" and len(f.args) == 2 \
+                and not f.keywords and not any(isinstance(a, ast.Starred) for a in f.args) \
+                and "getattr" not in def_exprs(m) and "getattr" not in m.params:
+            return f.args[0], f.args[1]
+        return None
+
+    def shape(self, m, c):
+        """(receiver expression, name expression) of a call through getattr, else None"""
+        f = c.func
+        g = self._getattr(m, f)
+        if g:
+            return g
+        if isinstance(f, ast.IfExp) and isinstance(f.test, ast.Call) and isinstance(f.test.func, ast.Name) \
+                and f.test.func.id == "callable" and len(f.test.args) == 1 and not f.test.keywords \
+                and isinstance(f.test.args[0], ast.Name) and isinstance(f.body, ast.Name) \
+                and f.body.id == f.test.args[0].id and "callable" not in def_exprs(m) and "callable" not in m.params:
+            g = self._getattr(m, f.orelse)
+            # names() only yields strings: callable(<str>) is False, the call is the getattr branch
+            if g and isinstance(g[1], ast.Name) and g[1].id == f.body.id:
+                return g
+        return None
+
+    def names(self, m, e, depth=0):
+        if depth > 6:
+            raise AnalysisError("method name %s in %s: helper nesting too deep" % (src(m, e), short(m)))
+        if isinstance(e, ast.Constant) and isinstance(e.value, str):
+            return {e.value}
+        if isinstance(e, ast.BinOp) and isinstance(e.op, ast.Add):
+            return {a + b for a in self.names(m, e.left, depth + 1) for b in self.names(m, e.right, depth + 1)}
+        if isinstance(e, ast.Name):
+            defs = def_exprs(m).get(e.id, [])
+            if e.id in m.params and not defs:
+                return self._from_callers(m, e.id, depth)
+            if e.id not in m.params and len(defs) == 1:
+                return self.names(m, defs[0], depth + 1)
+        raise AnalysisError("the bucket-writer method name %s in %s does not fold to constant strings" % (
+            src(m, e), short(m)))
+
+    def _from_callers(self, m, pname, depth):
+        a = m.node.args
+        if m.parent is not None or m.cls is None or self.enc.lookup(m.name) is not m \
+                or any(m.name in c.methods for c in self.idx.subclasses(self.enc)):
+            raise AnalysisError("%s: callers cannot be enumerated" % short(m))
+        pos = [x.arg for x in a.posonlyargs + a.args]
+        if pname not in pos or not pos or pos[0] != "self":
+            raise AnalysisError("%s: parameter %s is not positional" % (short(m), pname))
+        ix = pos.index(pname) - 1
+        dflt = None
+        nd = len(a.defaults)
+        if nd and pos.index(pname) >= len(pos) - nd:
+            dflt = a.defaults[pos.index(pname) - (len(pos) - nd)]
+        refs = [x for x in self.cg.refs_named(m.name) if not isinstance(x[1], ast.Name)]
+        if refs:
+            raise AnalysisError("%s is used as a value in %s: its callers cannot be enumerated" % (
+                short(m), short(refs[0][0])))
+        sites = self.cg.calls_named(m.name)
+        if not sites:
+            raise AnalysisError("%s is never called" % short(m))
+        out = set()
+        for cs in sites:
+            f = cs.fn
+            if top_unit(f).cls is not m.cls or cs.name != "self." + m.name:
+                raise AnalysisError("%s is called as %s in %s: not followed" % (short(m), cs.name, short(f)))
+            c = cs.call
+            if any(k.arg is None for k in c.keywords):
+                raise AnalysisError("%s: ** argument binding is not modelled" % src(f, c))
+            kw = [k.value for k in c.keywords if k.arg == pname]
+            if kw:
+                v = kw[0]
+            elif any(isinstance(x, ast.Starred) for x in c.args[:ix + 1]):
+                raise AnalysisError("%s: * argument binding is not modelled" % src(f, c))
+            elif len(c.args) > ix:
+                v = c.args[ix]
+            elif dflt is not None:
+                out |= self.names(m, dflt, depth + 1)
+                continue
+            else:
+                raise AnalysisError("%s does not bind %s" % (src(f, c), pname))
+            out |= self.names(f, v, depth + 1)
+        return out
+
+
+def writer_tail(c):
+    return c.func.attr if isinstance(c.func, ast.Attribute) else "<getattr>"
+
+
 # --------------------------------------------------------------------- rules
 def run(ctx: Context):
     idx = ctx.idx
     cg = get_callgraph(idx)
+
+    # -- shared by C06.6 / C06.10: helpers that return the gathered Deferred
+    def gathering_helper(name, stack):
+        """Encoder.<name> (no override in a subclass is looked at: the lookup is the one of the Encoder
+        class itself) returns, on every path, the value of self._gather_responses(..) - directly or through
+        a further such helper - and cannot fall off its end."""
+        if name in stack or len(stack) > 3:
+            return False
+        enc_ci = idx.cls(ENC)
+        hf = enc_ci.lookup(name) if enc_ci is not None else None
+        if hf is not None and any(name in c.methods for c in idx.subclasses(enc_ci)):
+            return False
+        if hf is None or isinstance(hf.node, ast.Lambda) or getattr(hf.node, "decorator_list", None):
+            return False
+        if isinstance(hf.node, ast.AsyncFunctionDef) or any(
+                isinstance(x, (ast.Yield, ast.YieldFrom, ast.Await)) for x in func_own_nodes(hf)):
+            return False
+        hrets = hf.cfg().find(is_return)
+        if not hrets or reaches_exit_avoiding(hf.cfg(), is_return):
+            return False
+        hn = FlowNorm(hf)
+        for n in hrets:
+            if n.ast.value is None:
+                return False
+            v = hn.resolve(n, n.ast.value)
+            if isinstance(v, ast.Call) and call_name(v) == "self._gather_responses":
+                continue
+            if not via_gathering_helper(hf, n, stack + (name,), hn):
+                return False
+        return True
+
+    def via_gathering_helper(f, n, stack, fnorm_=None):
+        """the value returned at node n of f IS the result of a call self.<helper>(..) of a gathering helper"""
+        v = (fnorm_ or FlowNorm(f)).resolve(n, n.ast.value)
+        if not isinstance(v, ast.Call):
+            return False
+        nm = call_name(v) or ""
+        if not (nm.startswith("self.") and nm.count(".") == 1) or nm == "self._gather_responses":
+            return False
+        return gathering_helper(nm[5:], stack)
+
 
     # -- 1. success of server selection is gated by the happiness comparison
     with ctx.rule("C06.1", "R1/E3", "get_shareholders: success return only with min_happiness <= "
@@ -1222,17 +1368,21 @@ def run(ctx: Context):
                   "addErrback(self._remove_shareholder, i, ..) as its first failure handler on every path",
                   expected=7) as r:
         enc = idx.cls(ENC)
+        dyn = DynWriters(idx, cg, enc)
         found = {}
         for m in enc.methods.values():
-            cands = [c for c in calls_in_func(m) if isinstance(c.func, ast.Attribute)
+            cands = [(c, c.func.value, None) for c in calls_in_func(m) if isinstance(c.func, ast.Attribute)
                      and c.func.attr not in LOCAL_LANDLORD_CALLS and c.func.attr not in REGS]
+            for c in calls_in_func(m):
+                g = dyn.shape(m, c)
+                if g:
+                    cands.append((c, g[0], g[1]))
             if not cands:
                 continue
             cfg = None
             fnorm = None
             pm = None
-            for c in cands:
-                recv = c.func.value
+            for (c, recv, name_expr) in cands:
                 if not (isinstance(recv, ast.Name) or isinstance(recv, ast.Subscript)):
                     continue
                 if cfg is None:
@@ -1246,8 +1396,17 @@ def run(ctx: Context):
                 ix = landlord_index(fnorm, node, recv)
                 if ix is None:
                     continue
-                tail = c.func.attr
-                found.setdefault(tail, []).append(m)
+                if name_expr is None:
+                    tail = c.func.attr
+                    found.setdefault(tail, []).append(m)
+                else:
+                    # method chosen by name: every name the callers hand in (AnalysisError when not enumerable)
+                    tails = sorted(dyn.names(m, name_expr))
+                    for t in tails:
+                        found.setdefault(t, []).append(m)
+                    tail = "|".join(tails)
+                    for t in tails[1:]:     # one obligation site per remote method that goes through this call
+                        r.site(m, c, "landlords[%s].%s (by name)" % (ix, t))
                 r.site(m, c, "landlords[%s].%s" % (ix, tail))
                 chain, outer = chained_regs(pm, c)
                 regs = [(k, rc, None) for (k, rc) in chain]
@@ -1402,7 +1561,8 @@ def run(ctx: Context):
                       "holders nor see their failures" % sname)
             for n in rets:
                 v = n.ast.value
-                ok = v is not None and any(call_name(c) == "self._gather_responses" for c in calls_feeding(sf, v))
+                ok = v is not None and (any(call_name(c) == "self._gather_responses" for c in calls_feeding(sf, v))
+                                        or via_gathering_helper(sf, n, ()))
                 r.require(ok, sf, sf.loc(n.ast), "%s returns %s, which does not come from self._gather_responses(..)"
                           % (sname, src(sf, v)))
             for w in reaches_exit_avoiding(sf.cfg(), is_return):
@@ -1628,11 +1788,50 @@ def run(ctx: Context):
                   "the UploadUnhappinessError raised by _remove_shareholder is never observed and done() runs "
                   "before the write finished", expected=7) as r:
         enc = idx.cls(ENC)
-        writers = {}
+        dyn = DynWriters(idx, cg, enc)
+        direct = {}
         for m in enc.methods.values():
-            lc = landlord_calls(m)
+            lc = landlord_calls(m, dyn)
             if lc:
-                writers[m.name] = lc
+                direct[m.name] = lc
+
+        def self_calls(m):
+            out = []
+            for c in calls_in_func(m):
+                nm = call_name(c) or ""
+                if nm.startswith("self.") and nm.count(".") == 1:
+                    out.append((c, nm[5:]))
+            return out
+        # helpers (not stages) that return the gathered Deferred: checked like a stage; a call of one must be returned
+        gathering = {nm for nm in enc.methods if nm not in STAGES and nm != "_gather_responses"
+                     and gathering_helper(nm, ())}
+        # writers: methods whose result is the Deferred of a remote write - they make the call themselves or
+        # forward (return) the result of another writer
+        writers = {nm: lc for (nm, lc) in direct.items() if nm not in gathering}
+        forwarders = set()
+        changed = True
+        while changed:
+            changed = False
+            for m in enc.methods.values():
+                if m.name in writers or m.name in STAGES or m.name in gathering or m.name == "_gather_responses":
+                    continue
+                hits = [c for (c, x) in self_calls(m) if x in writers and x not in STAGES]
+                if not hits or not direct:
+                    continue
+                pmm = parent_map(m)
+                if all(isinstance(pmm.get(id(chained_regs(pmm, c)[1])), ast.Return) for c in hits):
+                    writers[m.name] = []
+                    forwarders.add(m.name)
+                    changed = True
+        g_writes = set()
+        changed = True
+        while changed:
+            changed = False
+            for nm in gathering - g_writes:
+                m = enc.lookup(nm)
+                if nm in direct or any(x in writers or x in g_writes for (_c, x) in self_calls(m)):
+                    g_writes.add(nm)
+                    changed = True
 
         def cfg_node_of(fi, e):
             for n in fi.cfg().nodes:
@@ -1649,16 +1848,25 @@ def run(ctx: Context):
             a0 = arg(c, 0, "dl")
             return L is None or (isinstance(a0, ast.Name) and a0.id == L)
 
-        for sname in STAGES:
+        for sname in tuple(STAGES) + tuple(sorted(g_writes)):
             sf = idx.func(ENC + "." + sname)
             cfg = sf.cfg()
             pm = parent_map(sf)
-            sources = [(c, "self.landlords[%s].%s(..)" % (ix, c.func.attr)) for (c, _n, ix) in writers.get(sname, [])]
+            sources = [(c, "self.landlords[%s].%s(..)" % (ix, writer_tail(c))) for (c, _n, ix) in direct.get(sname, [])]
+            handed_on = 0
             for c in calls_in_func(sf):
                 nm = call_name(c) or ""
                 if nm.startswith("self.") and nm.count(".") == 1 and nm[5:] in writers and nm[5:] not in STAGES:
                     sources.append((c, nm + "(..)"))
-            if not sources:
+                elif nm.startswith("self.") and nm.count(".") == 1 and nm[5:] in g_writes:
+                    # the helper gathers its own writes (checked as a unit of its own): its result must be what
+                    # this function returns
+                    if not isinstance(pm.get(id(c)), ast.Return):
+                        raise AnalysisError("%s: the gathered Deferred of %s(..) is not returned directly: %s" % (
+                            short(sf), nm, src(sf, pm.get(id(c)) or c)))
+                    r.site(sf, c, "gathered Deferred of %s(..) returned" % nm)
+                    handed_on += 1
+            if not sources and not handed_on:
                 raise AnchorVanished("%s makes no remote call on a landlord (neither directly nor through a helper)"
                                      % short(sf))
             r.count(len(cfg.nodes))
